@@ -529,6 +529,10 @@ class Interp:
         return ev
 
     def raise_(self, clsname, *args):
+        if _os.environ.get('PYVC_DEBUG_RAISE'):
+            import traceback
+            print('RAISE', clsname, [str(a)[:80] for a in args], 'line', getattr(self, 'cur_line', None))
+            traceback.print_stack(limit=6)
         raise PyRaise(self.make_exc(clsname, args))
 
     def exc_cls(self, exc):
@@ -606,7 +610,9 @@ class Interp:
         rhs = self.ev(s.value)
         self.assign(s.target, self.world.ops.binop(self, s.op, cur, rhs, inplace=True))
 
-    def assign(self, tgt, v):
+    def assign(self, tgt, v, wb=False):
+        """wb: write-back of a mutated value-semantics container into the slot it was taken from
+        (may update a tuple slot: the tuple still holds the same, mutated, object)"""
         if isinstance(tgt, ast.Name):
             self.env[tgt.id] = v
         elif isinstance(tgt, (ast.Tuple, ast.List)):
@@ -619,10 +625,20 @@ class Interp:
         elif isinstance(tgt, ast.Subscript):
             obj = self.ev(tgt.value)
             idx = self.ev(tgt.slice)
-            newobj = self.world.ops.setitem(self, obj, idx, v)
+            if wb and isinstance(obj, SV) and vals.tag_of(self.refine(obj.t)) == 'TupleV':
+                items = V.titems(self.refine(obj.t))
+                from .ops import ival as _ival
+                i = simp(_ival(self.refine(idx.t)))
+                if i is None or not z3.is_int_value(i) or i.as_long() < 0:
+                    raise Unsupported(f'mutation of an element of a tuple at a computed index@{tgt.lineno}')
+                j = i.as_long()
+                newobj = SV(V.TupleV(simp(z3.Concat(z3.Extract(items, z3.IntVal(0), z3.IntVal(j)), z3.Unit(self.as_val(v)),
+                                                    z3.Extract(items, z3.IntVal(j + 1), z3.Length(items) - (j + 1))))), obj.ty, obj.src)
+            else:
+                newobj = self.world.ops.setitem(self, obj, idx, v)
             if newobj is not None:
                 # value-semantics containers: write the updated container back
-                self.assign(_store_target(tgt.value), newobj)
+                self.assign(_store_target(tgt.value), newobj, wb=True)
                 if isinstance(obj, SV) and obj.src is not None and obj.src is not tgt.value \
                         and isinstance(tgt.value, ast.Name):
                     # the container was taken out of another slot: that slot sees the mutation too
